@@ -825,15 +825,21 @@ def check_nll(case, jit=None):
     else:
         # both terms have one sign each; per entry: sub, square, *0.5, exp (<= 2 ulp + |j| LN2 argument rounding <= 3 ulp), mul;
         # mean: count-1 additions + division; 0.5 * mean(lv); final addition  ->  <= 16 half-ulps of the term magnitudes
-        ok = abs(v - want) <= 16 * EPS32 * (abs(c) + abs(l) * LN2) + 1e-30
+        # a log-variance j*LN2 of large magnitude carries an absolute rounding error of |j| LN2 half-ulps, which is the
+        # RELATIVE error of its precision exp(-j LN2): counted on top for |j| > 3
+        jm = max(abs(j) for j in js)
+        k = 16 if jm <= 3 else 16 + int(np.ceil(jm * LN2)) + 1
+        ok = abs(v - want) <= k * EPS32 * (abs(c) + abs(l) * LN2) + 1e-30
     if not ok:
         out.add("gaussian_nll:closed_form", f"gaussian_nll = {v!r}, closed form {c} + {l}*LN2 = {want!r} for entries {ent} shape {case['shape']}")
     return out
 
 
 def plan_nll(pool, quick):
-    C = dict(Dev="none", Shapes={11, 21, 22, 41} if quick else {11, 21, 12, 22, 41, 14, 42}, Pats=6 if quick else 15)
+    C = dict(Dev="none", Shapes={11, 21, 22, 41} if quick else {11, 21, 12, 22, 41, 14, 42}, Pats=6 if quick else 15, Wide=False)
     pool.generate("nll", "EnsembleNll", C)
+    # log-variances near both ends of the range the learned soft bounds allow (precision up to 2^21): vectors only
+    pool.generate("nll_wide", "EnsembleNll", dict(C, Wide=True, Shapes={11, 21, 22} if quick else {11, 21, 12, 22, 41}))
     pool.model_check("EnsembleNll", C, ["MinimalAtTarget", "ProperVariance", "AverageNotSum"], "EnsembleNll invariants")
     small = dict(C, Shapes={11}, Pats=1)
     pool.canary("EnsembleNll", small, "no_half_logvar", "ProperVariance")
@@ -845,7 +851,10 @@ def part_nll(rep, pool):
 
     from rl_blox.blox.probabilistic_ensemble import gaussian_nll
 
-    cases = pool.emitted("nll")
+    wide = pool.emitted("nll_wide")
+    if not any(e["j"] <= -21 for c_ in wide for e in c_["ent"]):
+        raise tlc.MachineryError("no NLL vector with a log-variance deep in the legal range")
+    cases = pool.emitted("nll") + wide
     jfn = jax.jit(gaussian_nll)
     n = 0
     for j, case in enumerate(cases):
